@@ -232,3 +232,31 @@ def atomic_facts(pr):
     for c, t, _ in pr.conds:
         add(c, t)
     return out
+
+
+def path_call_keys(ctx, fn, rule, ends=("return", "fall"), limit=4000, include_exc=False):
+    """[[canonical call term keys in execution order] for every path of fn that ends normally]"""
+    out = []
+    for p in run_paths(ctx, fn, rule=rule, limit=limit, include_exc=include_exc):
+        if p.end not in ends:
+            continue
+        out.append([evaluator(ctx, fn, e).ev(c).key() for c, e, st in calls_on(p)])
+    return out
+
+
+def every_path_calls(ctx, fn, rule, key, ends=("return", "fall")):
+    """does every normally ending path of fn make a call whose canonical term is `key` (a string or a predicate)?"""
+    ks = path_call_keys(ctx, fn, rule, ends)
+    pred = key if callable(key) else (lambda k: k == key)
+    return bool(ks) and all(any(pred(k) for k in path) for path in ks)
+
+
+def return_keys(ctx, fn, rule):
+    """set of canonical terms returned on the paths of fn (None for a bare return / falling off the end)"""
+    out = set()
+    for p in run_paths(ctx, fn, rule=rule, limit=4000):
+        if p.end == "return":
+            out.add(p.ret.key() if p.ret is not None else None)
+        elif p.end == "fall":
+            out.add(None)
+    return out
